@@ -382,23 +382,16 @@ def encode (o : Opts) (t : Ty) (v : Val) : Option Bytes :=
 -- decoder
 -- ---------------------------------------------------------------------------------------------
 
-/-- decoders.Load(id) for a tag byte (init.go:200-292) -/
-def tagTy (b : UInt8) : Option Ty :=
-  if b = edtPID then some (.idr .pid) else if b = edtProcessID then some (.idn .processid)
-  else if b = edtRef then some (.idr .ref) else if b = edtAlias then some (.idr .alias)
-  else if b = edtEvent then some (.idn .event) else if b = edtTime then some .time
-  else if b = edtBool then some .bool else if b = edtAtom then some .atom
-  else if b = edtString then some .str
-  else if b = edtInt then some (.num .int) else if b = edtInt8 then some (.num .i8)
-  else if b = edtInt16 then some (.num .i16) else if b = edtInt32 then some (.num .i32)
-  else if b = edtInt64 then some (.num .i64)
-  else if b = edtUint then some (.num .uint) else if b = edtUint8 then some (.num .u8)
-  else if b = edtUint16 then some (.num .u16) else if b = edtUint32 then some (.num .u32)
-  else if b = edtUint64 then some (.num .u64)
-  else if b = edtBinary then some .bin
-  else if b = edtFloat32 then some (.num .f32) else if b = edtFloat64 then some (.num .f64)
-  else if b = edtAny then some .any else if b = edtError then some .error
-  else none
+/-- the byte-keyed entries of the `decoders` registry (init.go:200-292) -/
+def tagTable : List (UInt8 × Ty) :=
+  [(edtPID, .idr .pid), (edtProcessID, .idn .processid), (edtRef, .idr .ref), (edtAlias, .idr .alias),
+   (edtEvent, .idn .event), (edtTime, .time), (edtBool, .bool), (edtAtom, .atom), (edtString, .str),
+   (edtInt, .num .int), (edtInt8, .num .i8), (edtInt16, .num .i16), (edtInt32, .num .i32), (edtInt64, .num .i64),
+   (edtUint, .num .uint), (edtUint8, .num .u8), (edtUint16, .num .u16), (edtUint32, .num .u32), (edtUint64, .num .u64),
+   (edtBinary, .bin), (edtFloat32, .num .f32), (edtFloat64, .num .f64), (edtAny, .any), (edtError, .error)]
+
+/-- decoders.Load(id) for a tag byte -/
+def tagTy (b : UInt8) : Option Ty := (tagTable.find? (fun e => e.1 = b)).map (·.2)
 
 /-- getRegDecoder (decode.go:110): cache id (> 4095) or inline name, then the registry -/
 def getReg (o : Opts) (bs : Bytes) : Res (Ty × Bytes) :=
